@@ -20,6 +20,7 @@ import (
 	"go/parser"
 	"go/printer"
 	"go/token"
+	"math/big"
 	"os"
 	"strings"
 )
@@ -324,6 +325,100 @@ func constExpr(file, name string) {
 	die("const/var %s not found", name)
 }
 
+// constEval evaluates a constant integer expression (literals, math.Max*, + - * << and parens).
+func constEval(e ast.Expr) (*big.Int, bool) {
+	switch x := e.(type) {
+	case *ast.ParenExpr:
+		return constEval(x.X)
+	case *ast.BasicLit:
+		if x.Kind == token.INT {
+			n, ok := new(big.Int).SetString(strings.ReplaceAll(x.Value, "_", ""), 0)
+			return n, ok
+		}
+	case *ast.SelectorExpr:
+		if id, ok := x.X.(*ast.Ident); ok && id.Name == "math" {
+			if v, ok := mathConsts[x.Sel.Name]; ok {
+				n, ok := new(big.Int).SetString(v, 10)
+				return n, ok
+			}
+		}
+	case *ast.CallExpr: // integer conversion of a constant
+		if id, ok := x.Fun.(*ast.Ident); ok && widths[id.Name] != 0 && len(x.Args) == 1 {
+			return constEval(x.Args[0])
+		}
+	case *ast.UnaryExpr:
+		if v, ok := constEval(x.X); ok && x.Op == token.SUB {
+			return new(big.Int).Neg(v), true
+		}
+	case *ast.BinaryExpr:
+		a, ok1 := constEval(x.X)
+		b, ok2 := constEval(x.Y)
+		if ok1 && ok2 {
+			switch x.Op {
+			case token.ADD:
+				return new(big.Int).Add(a, b), true
+			case token.SUB:
+				return new(big.Int).Sub(a, b), true
+			case token.MUL:
+				return new(big.Int).Mul(a, b), true
+			case token.SHL:
+				return new(big.Int).Lsh(a, uint(b.Uint64())), true
+			}
+		}
+	}
+	return nil, false
+}
+
+// remconsts: every `x % K` inside the function must have a constant K; all K must be equal; the
+// value becomes a Lean Int definition. A non-constant modulus or differing moduli is a loud failure.
+func remconsts(file, fn, ns, leanName, assignedTo string) {
+	fset := token.NewFileSet()
+	f, err := parser.ParseFile(fset, file, nil, 0)
+	if err != nil {
+		die("%v", err)
+	}
+	fd := findFunc(f, fn)
+	if fd == nil {
+		die("function %s not found in %s", fn, file)
+	}
+	var vals []*big.Int
+	collect := func(root ast.Node) {
+		ast.Inspect(root, func(n ast.Node) bool {
+			if be, ok := n.(*ast.BinaryExpr); ok && be.Op == token.REM {
+				v, ok := constEval(be.Y)
+				if !ok {
+					die("non-constant modulus in %s", fn)
+				}
+				vals = append(vals, v)
+			}
+			return true
+		})
+	}
+	// only the moduli inside statements that assign the named variable
+	ast.Inspect(fd.Body, func(n ast.Node) bool {
+		as, ok := n.(*ast.AssignStmt)
+		if !ok {
+			return true
+		}
+		for i, l := range as.Lhs {
+			if id, ok := l.(*ast.Ident); ok && id.Name == assignedTo && i < len(as.Rhs) {
+				collect(as.Rhs[i])
+			}
+		}
+		return true
+	})
+	if len(vals) == 0 {
+		die("no %% expression in %s", fn)
+	}
+	for _, v := range vals {
+		if v.Cmp(vals[0]) != 0 {
+			die("differing moduli in %s: %s vs %s", fn, vals[0], v)
+		}
+	}
+	fmt.Printf("-- GENERATED by tools/extract from %s:%s (%d modulus sites) — do not edit\nnamespace %s\ndef %s : Int := %s\ndef %sSites : Nat := %d\nend %s\n",
+		strings.TrimPrefix(file, "/repo/"), fn, len(vals), ns, leanName, vals[0], leanName, len(vals), ns)
+}
+
 func main() {
 	if len(os.Args) < 2 {
 		die("usage")
@@ -334,6 +429,29 @@ func main() {
 			die("usage: intfunc file func ns")
 		}
 		intfunc(os.Args[2], os.Args[3], os.Args[4])
+	case "remconsts":
+		if len(os.Args) != 7 {
+			die("usage: remconsts file func ns leanName assignedVar")
+		}
+		remconsts(os.Args[2], os.Args[3], os.Args[4], os.Args[5], os.Args[6])
+	case "cat":
+		// concatenate the outputs of several sub-invocations separated by "--"
+		var cur []string
+		flush := func() {
+			if len(cur) > 0 {
+				os.Args = append([]string{os.Args[0]}, cur...)
+				main()
+				cur = nil
+			}
+		}
+		for _, a := range os.Args[2:] {
+			if a == "--" {
+				flush()
+			} else {
+				cur = append(cur, a)
+			}
+		}
+		flush()
 	case "fingerprint":
 		fingerprint(os.Args[2], os.Args[3:])
 	case "const":
